@@ -35,12 +35,14 @@ class EnumStats:
             logger.info("%s: %d" % (e.name, self.stats_dict[e]))
 
     def dump(self, out_file):
-        pickler = pickle.Pickler(open(out_file, "wb"), -1)
-        pickler.dump(self.stats_dict)
+        with open(out_file, "wb") as outf:
+            pickler = pickle.Pickler(outf, -1)
+            pickler.dump(self.stats_dict)
 
     def load(self, in_file):
-        unpickler = pickle.Unpickler(open(in_file, "rb"), fix_imports=False)
-        self.stats_dict = unpickler.load()
+        with open(in_file, "rb") as inf:
+            unpickler = pickle.Unpickler(inf, fix_imports=False)
+            self.stats_dict = unpickler.load()
 
     def merge(self, other):
         for e in other.stats_dict.keys():
